@@ -103,9 +103,17 @@ def extras(pid):
     return [e for e in EXTRA_PROPS.get(pid, []) if e not in DISABLED_EXTRAS]
 
 
+LEAN_TIMEOUT = os.environ.get("VERIF_LEAN_TIMEOUT", "1800")
+
+
 def lake_build(targets):
-    r = run(["lake", "build"] + targets, cwd=LEAN)
-    return r.returncode == 0, r.stdout
+    # a proof script that no longer applies may fail — or, on a regenerated definition, not
+    # terminate: every Lean invocation is bounded (GNU timeout kills the whole process group)
+    r = run(["timeout", "-k", "10", LEAN_TIMEOUT, "lake", "build"] + targets, cwd=LEAN)
+    out = r.stdout
+    if r.returncode in (124, 137):
+        out += "\nerror: lake build exceeded %s s (treated as a failed proof)\n" % LEAN_TIMEOUT
+    return r.returncode == 0, out
 
 
 FORBIDDEN = re.compile(r"\b(sorry|admit|native_decide|bv_decide|implemented_by|unsafe)\b|^\s*axiom\s|maxHeartbeats\s+0\b", re.M)
@@ -186,7 +194,7 @@ def audit_props1(pid):
     f = os.path.join("Gobptree", "Props", pid + ".lean")
     if not os.path.exists(os.path.join(LEAN, f)):
         return dict(theorems={}, ok=False, log="no Props file for " + pid)
-    r = run(["lake", "env", "lean", f], cwd=LEAN)
+    r = run(["timeout", "-k", "10", LEAN_TIMEOUT, "lake", "env", "lean", f], cwd=LEAN)
     log = r.stdout
     thms = {}
     for m in re.finditer(r"'([^']+)' depends on axioms: \[([^\]]*)\]", log, re.S):
